@@ -1,9 +1,14 @@
 #!/bin/sh
-# usage: tools/seedsuite.sh <ID>...   runs the pinned suite inside each seeded worktree and compares FAILED ids with the baseline always_fail list
+# usage: tools/seedsuite.sh <ID>...   applies /tmp/seed_<ID>/patch.diff to a fresh worktree of /repo HEAD, runs the pinned suite there
+# and compares the FAILED ids with the baseline always_fail list
 for id in "$@"; do
-  wt=/tmp/seedwt_$id
+  wt=/tmp/seedver_$id
+  git -C /repo worktree remove --force $wt 2>/dev/null
+  git -C /repo worktree add -q $wt HEAD || { echo "$id WORKTREE-FAILED"; continue; }
+  if ! git -C $wt apply /tmp/seed_$id/patch.diff; then echo "$id PATCH-DOES-NOT-APPLY"; git -C /repo worktree remove --force $wt; continue; fi
   (cd $wt && /venv/bin/python -m pytest -q -p no:cacheprovider --timeout=900 --continue-on-collection-errors beartype_test > /tmp/seed_$id.suite.log 2>&1)
   grep "^FAILED\|^ERROR" /tmp/seed_$id.suite.log | sed 's/ - .*//; s/^FAILED //; s/^ERROR //' | sed 's#/#.#g; s#\.py::#::#' | sort > /tmp/seed_$id.failed.txt
   sort /tmp/always_fail.txt > /tmp/always_fail.sorted
   if diff -q /tmp/seed_$id.failed.txt /tmp/always_fail.sorted >/dev/null; then echo "$id SUITE-OK $(tail -1 /tmp/seed_$id.suite.log)"; else echo "$id SUITE-DIFFERS"; diff /tmp/seed_$id.failed.txt /tmp/always_fail.sorted | head; fi
+  git -C /repo worktree remove --force $wt
 done
